@@ -15,7 +15,7 @@ src = a.src or f"/tmp/wt_{a.pid}"
 dst = f"/verif/seeded/{a.name}"
 os.makedirs(dst, exist_ok=True)
 patch = os.path.join(src, "patch.diff")
-if os.path.isdir(src):
+if os.path.isdir(src) and os.path.realpath(src) != os.path.realpath(dst):
     if os.path.exists(patch):
         shutil.copy(patch, os.path.join(dst, "patch.diff"))
     for f in os.listdir(src):
